@@ -105,6 +105,9 @@ class Shim(object):
         self.inside = False
         self.fds = {}                      # fd -> (path, writable)
         self.crash_before = plan.get('crash_before')
+        # an adversary in another process: right before operation k a directory
+        # is moved aside and a symbolic link (to somewhere else) takes its name
+        self.swap_before = plan.get('swap_before')
         # a catchable interrupt (SIGINT as Python sees it: KeyboardInterrupt
         # raised when the interrupted system call returns / before the next)
         self.interrupt_after = plan.get('interrupt_after')
@@ -278,6 +281,15 @@ class Shim(object):
             self.log_json('X', {'k': k, 'why': 'crash', 'op': name,
                                 'p': paths})
             os._exit(EXIT_CRASH)
+        sw = self.swap_before
+        if sw and sw.get('k') == k:
+            self.swap_before = None
+            try:
+                _O['rename'](sw['victim'], sw['aside'])
+                _O['symlink'](sw['to'], sw['victim'])
+                self.log_json('W', {'k': k, 'swapped': sw['victim']})
+            except OSError as e_:
+                self.log_json('W', {'k': k, 'swap_failed': e_.errno})
         if self.interrupt_before == k:
             self.interrupt_before = None
             self.log_json('X', {'k': k, 'why': 'interrupt-before', 'op': name,
@@ -422,6 +434,11 @@ class Shim(object):
             if suf is not None and not any(p and p.endswith(suf)
                                            for p in paths):
                 continue
+            rx = pf.get('re')
+            if rx is not None:
+                import re as _re
+                if not any(p and _re.search(rx, p) for p in paths):
+                    continue
             if pf.get('excl') and kind == 'open':
                 fl = a[1] if len(a) > 1 else kw.get('flags', 0)
                 if not fl & os.O_EXCL:
